@@ -2,7 +2,7 @@
 # Runs the pinned suite with the verif guard OFF and compares with /root/.vp/BASELINE.json.
 # usage: bin/baseline_check.sh [repo-dir]   (default /repo)
 REPO=${1:-/repo}
-cd "$REPO" && GOFLAGS=-mod=mod GOPROXY=off GOSUMDB=off GOTOOLCHAIN=local go test -mod=mod -json -vet=off -count=1 -timeout 25m ./... 2>/dev/null | python3 -c "
+cd "$REPO" && GOFLAGS=-mod=mod GOPROXY=off GOSUMDB=off GOTOOLCHAIN=local go test -mod=mod -json -vet=off -count=1 -timeout 25m ./... 2>/tmp/baseline_check.err | python3 -c "
 import sys,json
 ok=set();fail=set()
 for l in sys.stdin:
